@@ -372,9 +372,9 @@ func TestC04(t *testing.T) {
 			i := rapid.IntRange(0, len(w.TcbInfo.Levels)-1).Draw(t, "lvl")
 			w.TcbInfo.Levels[i].Status = rapid.SampledFrom(gen.Statuses).Draw(t, "st")
 		case 2:
-			w.TcbInfo.Fmspc = rapid.SampledFrom([]string{"000000000000", strings.ToUpper(w.TcbInfo.Fmspc), w.TcbInfo.Fmspc[2:] + "00", w.TcbInfo.Fmspc[:10]}).Draw(t, "fmspc")
+			w.TcbInfo.Fmspc = rapid.SampledFrom(append([]string{"000000000000", strings.ToUpper(w.TcbInfo.Fmspc), w.TcbInfo.Fmspc[2:] + "00", w.TcbInfo.Fmspc[:10]}, lookalikes(w.TcbInfo.Fmspc)...)).Draw(t, "fmspc")
 		case 3:
-			w.TcbInfo.PceID = rapid.SampledFrom([]string{"0000", strings.ToUpper(w.TcbInfo.PceID), w.TcbInfo.PceID[2:] + w.TcbInfo.PceID[:2], "ffff"}).Draw(t, "pceid")
+			w.TcbInfo.PceID = rapid.SampledFrom(append([]string{"0000", strings.ToUpper(w.TcbInfo.PceID), w.TcbInfo.PceID[2:] + w.TcbInfo.PceID[:2], "ffff"}, lookalikes(w.TcbInfo.PceID)...)).Draw(t, "pceid")
 		case 4:
 			w.TcbInfo.Mrsigner[rapid.IntRange(0, 47).Draw(t, "b")] ^= 1 << uint(rapid.IntRange(0, 7).Draw(t, "bit"))
 		case 5:
@@ -412,6 +412,44 @@ func TestC04(t *testing.T) {
 		c04Run(t, w, "random world ["+d.String()+"]", "")
 		gen.Class("random")
 	})
+}
+
+// lookalikes returns strings that are NOT the hex identifier id but would pass a sloppy comparison: characters that
+// differ from a digit or letter only in the 0x20 bit (control characters for digits), full-width and Arabic-Indic
+// digits, the Kelvin sign and long s (which case-fold to ASCII letters), white space and prefixes around the value.
+func lookalikes(id string) []string {
+	mapRunes := func(f func(r rune) rune) string {
+		out := []rune(id)
+		for i, r := range out {
+			out[i] = f(r)
+		}
+		return string(out)
+	}
+	first := func(f func(r rune) (rune, bool)) string {
+		out := []rune(id)
+		for i, r := range out {
+			if n, ok := f(r); ok {
+				out[i] = n
+				break
+			}
+		}
+		return string(out)
+	}
+	isDigit := func(r rune) bool { return r >= '0' && r <= '9' }
+	return []string{
+		mapRunes(func(r rune) rune {
+			if isDigit(r) {
+				return r &^ 0x20
+			}
+			return r
+		}),
+		first(func(r rune) (rune, bool) { return r &^ 0x20, isDigit(r) }),
+		first(func(r rune) (rune, bool) { return r - '0' + 0xff10, isDigit(r) }),
+		first(func(r rune) (rune, bool) { return r - '0' + 0x0660, isDigit(r) }),
+		first(func(r rune) (rune, bool) { return r - 'a' + 0xff41, r >= 'a' && r <= 'f' }),
+		first(func(r rune) (rune, bool) { return r ^ 0x40, r >= 'a' && r <= 'f' }),
+		" " + id, id + " ", id + "\n", "0x" + id, id + "\x00", "\t" + id, id[:len(id)-1] + "\u212a", strings.ToUpper(id) + " ",
+	}
 }
 
 func maxb(a, b byte) byte {
